@@ -34,10 +34,27 @@ def _run(ctx, res, seeds, tier=None):
     return {"builds": sorted(LABEL[b] for (_, b) in exes)}
 
 
+def _interleave(fails):
+    """the replay keeps the first 20 failing inputs: take them round-robin over (build, op) so that a fault of the assembly
+    is reported both as a direct call (`salsa20asm … nonce`) and as the request of fastrandombytes it corrupts (`frb 1 <start> <idx> <len> …`)"""
+    groups = {}
+    for f in fails:
+        groups.setdefault((f["stream"].split("/")[1], f["line"].split(" ", 1)[0]), []).append(f)
+    out = []
+    qs = [groups[k] for k in sorted(groups, key=lambda k: (k[1] != "frb", k))]
+    while any(qs):
+        for q in qs:
+            if q:
+                out.append(q.pop(0))
+    return out
+
+
 def streams(ctx, res):
     sd = ctx["seed"]
     seeds = [sd, sd + 100] if ctx["tier"] == "quick" else [sd, sd + 100, sd + 200, sd + 300]
-    return _run(ctx, res, seeds)
+    cov = _run(ctx, res, seeds)
+    res.specfail[:] = _interleave(res.specfail)
+    return cov
 
 
 def search(ctx, res, problems):
@@ -54,7 +71,11 @@ PROP = {
             "lengths 0,1,63,64,65,255,256,257, 2^20+1, all multiples of 64 up to 1024 ±1, random; buffer flush to a trailing PROT_NONE page, "
             "flush to a leading PROT_NONE page, and at every alignment 0..63 between red zones; carries of the nonce into bytes 1 and 2 reached "
             "natively (65 538 requests), into bytes 3..7 and the 2^64 wrap by presetting the static nonce (white-box build, statics read back "
-            "after each request); direct calls of the assembly with random 64-bit nonces; portable C core/quarterround on the examples of the "
+            "after each request); white-box product {request number classes 0, 2^8-1.., 2^16±1, 2^24±1, 2^32-2..2^32+2, 2^40, 2^48, 2^56, 2^63, 2^64-2, 2^64-1, "
+            "two random with all 8 bytes non-zero and distinct} x {length classes 0,1,63,64,65,128,191,192,255,256,257,320,383,511,512,513,703,768,1000,4113 = every route "
+            "through the assembly: 4-block loop x0/1/≥2, one-block loop x0/1/≥2, partial block y/n}: the request of that length is the first one served at that "
+            "number, a second request of a rotating length follows; direct calls of the assembly with random 64-bit nonces, and for every route: nonce = 0 except "
+            "one byte (8 positions), nonce = all bytes equal except one, the nonce classes above, key = 0 except one byte of each word (all 32 positions at length 703); portable C core/quarterround on the examples of the "
             "Salsa20 specification (incl. Salsa20^1000000) and random inputs against the Lean specification; distinct = distinct op lines",
     "trusted_base": props.COMMON_TB + [
         "nfl_crypto_stream_salsa20_amd64_xmm6.s (4823 lines of assembly) is NOT modelled: its equality with the Lean Salsa20/20 stream and the absence of writes outside the buffer are observed on the generated requests only (guard pages, red zones, byte-for-byte comparison); block counters ≥ 2^32 (requests ≥ 256 GiB) are never exercised",
